@@ -428,6 +428,49 @@ def twin_exec(op, a2b):
         return pyerrno.errorcode.get(e.errno, str(e.errno)), None
 
 
+def ref_pathop(pm, kind, slots, paths, extra=None):
+    """The property for one path call, written independently of the Lean model, in the answer format of
+    `pathsdriver`: `errno N` (rejected before any host operation) or `host <op> <pathhex> …` (exactly this
+    host operation).  slots: descriptor path bytes | "null" | "oob"."""
+    def res(slot, p):
+        return resolve_spec(pm, slot, p)
+    if kind in ("mkdir", "rmdir", "unlink", "stat", "readlink"):
+        if slots[0] in ("oob", "null"):
+            return "errno 8"
+        r = res(slots[0], paths[0])
+        if r is None:
+            return "errno 28"
+        tail = {"mkdir": " 493", "readlink": f" {extra}"}.get(kind, "")
+        return f"host {kind} {wp.hexs(r)}{tail}"
+    if kind == "rename":
+        if "oob" in slots:
+            return "errno 8"
+        if slots[0] == "null":
+            return "errno 8"
+        r1 = res(slots[0], paths[0])
+        if r1 is None:
+            return "errno 28"
+        if slots[1] == "null":
+            return "errno 8"
+        r2 = res(slots[1], paths[1])
+        if r2 is None:
+            return "errno 28"
+        return f"host rename {wp.hexs(r1)} {wp.hexs(r2)}"
+    if kind == "symlink":
+        tgt = extra
+        if slots[0] == "oob":
+            return "errno 8"
+        if len(tgt) >= pm:
+            return "errno 28"
+        if slots[0] == "null":
+            return "errno 8"
+        r = res(slots[0], paths[0])
+        if r is None:
+            return "errno 28"
+        return f"host symlink {wp.hexs(cstr(tgt))} {wp.hexs(r)}"
+    raise ValueError(kind)
+
+
 def run_pathops(chk, h, scratch, pm, tier, broken, model_ok):
     rng = chk.rng
     values = wasi_errno_values()
@@ -484,6 +527,7 @@ def run_pathops(chk, h, scratch, pm, tier, broken, model_ok):
                     return None
                 return nm
             fd, slot = pick_fd()
+            sl = lambda x: x if x in ("null", "oob") else wp.unhexs(x)
             p = pick_path()
             if p is None:
                 dl = len(wp.unhexs(slot)) if slot not in ("null", "oob") else 10
@@ -492,26 +536,33 @@ def run_pathops(chk, h, scratch, pm, tier, broken, model_ok):
             if kind in ("mkdir", "rmdir", "unlink", "stat"):
                 real = h.ask(f"{kind} {fd} {wp.hexs(p)} {len(p)}")
                 mline = f"pop {pm} {kind} {slot} {wp.hexs(p)} {len(p)}"
+                ref = ref_pathop(pm, kind, [sl(slot)], [p])
             elif kind == "readlink":
                 bl = rng.choice([0, 3, 64, 5000])
                 real = h.ask(f"readlink {fd} {wp.hexs(p)} {len(p)} {bl}")
                 mline = f"pop {pm} readlink {slot} {wp.hexs(p)} {len(p)} {bl}"
+                ref = ref_pathop(pm, kind, [sl(slot)], [p], bl)
             elif kind == "rename":
                 fd2, slot2 = pick_fd()
                 p2 = pick_path() or b"n9"
                 real = h.ask(f"rename {fd} {wp.hexs(p)} {len(p)} {fd2} {wp.hexs(p2)} {len(p2)}")
                 mline = f"poprename {pm} {slot} {wp.hexs(p)} {len(p)} {slot2} {wp.hexs(p2)} {len(p2)}"
+                ref = ref_pathop(pm, kind, [sl(slot), sl(slot2)], [p, p2])
             else:
                 tgt = rng.choice([b"file1", b"../x", b"", b"t" * (pm - 1), b"t" * pm, b"sub/file2"])
                 real = h.ask(f"symlink {wp.hexs(tgt)} {len(tgt)} {fd} {wp.hexs(p)} {len(p)}")
                 mline = f"popsymlink {pm} {wp.hexs(tgt)} {len(tgt)} {slot} {wp.hexs(p)} {len(p)}"
+                ref = ref_pathop(pm, kind, [sl(slot)], [p], tgt)
             del extra
             total += 1
             hist[kind] = hist.get(kind, 0) + 1
-            if not model_ok:
-                continue
-            m = drv.batch([mline])[0]
-            chk.count_case((si, oi, mline[:80]), True, {"op": mline[:100], "real": real[:60], "model": m[:80]} if total % 97 == 1 else None)
+            # `ref` (Python statement of the property) decides violations; the Lean model is compared with it
+            # and thereby with the real code (a model mismatch is a broken tie, never a violation by itself)
+            mm = drv.batch([mline])[0] if model_ok else None
+            chk.count_case((si, oi, mline[:80]), True, {"op": mline[:100], "real": real[:60], "model": (mm[:80] if mm else "unavailable (extractor or driver build failed)"), "reference": ref[:80]} if total % 97 == 1 else None)
+            if mm is not None and mm != ref:
+                broken.append({"kind": "correspondence", "msg": f"path-call model vs reference statement: {mline[:100]}: model `{mm[:80]}` reference `{ref[:80]}` real `{real[:40]}`"})
+            m = ref
             if real.startswith("crash"):
                 chk.violation(f"pathop-{kind}-crash", f"path call {kind} crashed in the real code: {real[:120]}",
                               {"kind": "pathop", "request": mline, "real": real}, True)
@@ -530,17 +581,16 @@ def run_pathops(chk, h, scratch, pm, tier, broken, model_ok):
                                       f"{kind} with a guest path containing a NUL byte ({p!r}) is not rejected (returns {rt[0]}): the host operation acts on the path cut at the NUL, not on the resolved path",
                                       {"kind": "pathop-nul", "request": mline, "real": real}, True)
                     else:
-                        broken.append({"kind": "correspondence", "msg": f"{mline[:100]}: real errno {rt[0]} model {exp} (no host operation)"})
-                continue
-            if not m.startswith("host "):
-                broken.append({"kind": "correspondence", "msg": f"{mline[:100]}: model `{m}` real `{real[:60]}`"})
+                        chk.violation(f"pathop-{kind}-not-rejected" if exp in ("8", "28") and rt[0] == "0" else f"pathop-{kind}-wrong-early-errno",
+                                  f"{kind}: the property requires errno {exp} without any host operation, the real code returned `{real[:60]}`",
+                                  {"kind": "pathop", "request": mline, "real": real, "expected": ref}, True)
                 continue
             ename, extra2 = twin_exec(m, a2b)
             if ename is None:
                 exp_model = "0"
                 exp_ref = "0"
             else:
-                exp_model = drv.batch([f"werrno {ename}"])[0]
+                exp_model = drv.batch([f"werrno {ename}"])[0] if model_ok else None
                 ref = reference_wasi_errno(ename, values)
                 exp_ref = str(ref) if ref is not None else exp_model
             errs[(ename or "ok")] = errs.get((ename or "ok"), 0) + 1
@@ -550,7 +600,9 @@ def run_pathops(chk, h, scratch, pm, tier, broken, model_ok):
                                   f"host error {ename} of {m.split()[1]} is returned as WASI errno {rt[0]} (the default EINVAL) although WASI defines {ename[1:]} = {exp_ref}: wasiErrno() has no case for {ename}",
                                   {"kind": "pathop-errno", "request": mline, "host_op": m, "host_errno": ename, "real": real, "expected": exp_ref}, True)
                 else:
-                    broken.append({"kind": "correspondence", "msg": f"{mline[:100]}: real `{real[:60]}`, twin POSIX op `{m[:80]}` gives {ename} → {exp_ref}"})
+                    chk.violation(f"pathop-{kind}-wrong-errno-{ename or 'ok'}",
+                                  f"{kind}: performing `{m[:120]}` directly gives {ename or 'success'} (WASI {exp_ref}); the real call returned `{real[:60]}`",
+                                  {"kind": "pathop", "request": mline, "real": real, "expected": exp_ref, "host_op": m}, True)
             if ename is None and m.split()[1] == "readlink":
                 if len(rt) < 3 or wp.unhexs(rt[2]) != (extra2 if not extra2.startswith(Bb) else Ab + extra2[len(Bb):]):
                     broken.append({"kind": "correspondence", "msg": f"{mline[:100]}: readlink real `{real[:80]}` twin `{extra2[:40]}`"})
